@@ -439,6 +439,52 @@ class Relax:
         return e
 
 
+# ---------------------------------------------------------------- B0: nonlinear terms as uninterpreted functions
+
+class NLAbs:
+    """replace nonlinear products/quotients by applications of uninterpreted functions (sound weakening):
+    obligations that only need the *facts supplied by lemmas* plus linear/congruence reasoning are decided at once"""
+    def __init__(self):
+        self.memo = {}
+        self.mulR = z3.Function('nl!mul', z3.RealSort(), z3.RealSort(), z3.RealSort())
+        self.divR = z3.Function('nl!div', z3.RealSort(), z3.RealSort(), z3.RealSort())
+        self.mulI = z3.Function('nl!imul', z3.IntSort(), z3.IntSort(), z3.IntSort())
+        self.ok = True
+
+    def ab(self, e):
+        i = e.get_id()
+        if i in self.memo: return self.memo[i]
+        r = self._ab(e); self.memo[i] = r
+        return r
+
+    def _ab(self, e):
+        if not z3.is_app(e): self.ok = False; return e
+        k = e.decl().kind()
+        ch0 = e.children()
+        if not ch0: return e
+        ch = [self.ab(c) for c in ch0]
+        if not self.ok: return e
+        isnum = lambda c: z3.is_int_value(c) or z3.is_rational_value(c) or z3.is_algebraic_value(c)
+        if k == z3.Z3_OP_MUL:
+            nums = [c for c in ch if isnum(c)]; rest = [c for c in ch if not isnum(c)]
+            if len(rest) >= 2:
+                f = self.mulR if e.sort().kind() == z3.Z3_REAL_SORT else self.mulI
+                rest = sorted(rest, key=lambda t: t.get_id())
+                acc = rest[0]
+                for c in rest[1:]: acc = f(acc, c)
+                for c in nums: acc = c * acc
+                return acc
+        if k == z3.Z3_OP_DIV and not isnum(ch[1]):
+            return self.divR(ch[0], ch[1])
+        if k in (z3.Z3_OP_IDIV, z3.Z3_OP_MOD, z3.Z3_OP_REM, z3.Z3_OP_POWER) and not isnum(ch[1]):
+            self.ok = False; return e
+        if all(a.eq(b) for a, b in zip(ch, ch0)): return e
+        try:
+            return e.decl()(*ch)
+        except Exception:
+            self.ok = False; return e
+
+
 # ---------------------------------------------------------------- lazy combination: nlsat for reals, LIA for index atoms
 
 class IntAbs:
@@ -495,7 +541,7 @@ def decide_int_atoms(fs, int_h, limit=400):
     return [f for f in out if not z3.is_true(f)]
 
 
-def lazy_combination(fs, budget):
+def lazy_combination(fs, budget, want_models=False):
     """fs: quantifier-free, array-free formulas over Int and Real.  returns 'unsat' | 'sat' | 'unknown'"""
     ia = IntAbs()
     afs = [ia.ab(f) for f in fs]
@@ -525,7 +571,9 @@ def lazy_combination(fs, budget):
             track[p.get_id()] = (b, val)
             si.add(z3.Implies(p, a if val else z3.Not(a)))
         r2 = si.check(*[z3.Bool('tr!%d' % n_) for n_ in range(len(lits))])
-        if r2 == z3.sat: return 'sat', it
+        if r2 == z3.sat:
+            if want_models: return 'sat', (m, si.model())
+            return 'sat', it
         if r2 != z3.unsat: return 'unknown', it
         core = si.unsat_core()
         clause = []
@@ -585,6 +633,69 @@ def instantiate(quants, plain, goal, extra_terms=(), rounds=2, cap=600, goal_onl
     return insts
 
 
+def refine_loop(plain, quants, goal, skolems, budget):
+    """counterexample-guided instantiation on the scalarised query: solve with the instances chosen so far,
+    evaluate the remaining candidate instances in the model, add the falsified ones, repeat"""
+    t0 = time.time()
+    active = instantiate(quants, plain, goal, extra_terms=skolems, goal_only=True, rounds=1)
+    cands = instantiate(quants, plain, goal, extra_terms=skolems, goal_only=False, rounds=2)
+    act_ids = set(a.get_id() for a in active)
+    ng = z3.Not(goal)
+    for rnd in range(30):
+        left = budget - (time.time() - t0)
+        if left <= 0: return 'unknown', rnd
+        allh = coarse_relevant(plain + active, goal)
+        int_h = [h for h in allh if _int_only_formula(h)]
+        el = Elim(IntOracle(int_h))
+        rest = [el.rw(h) for h in allh if not _int_only_formula(h)]
+        gq = el.rw(ng)
+        if not el.ok: return 'unknown', 'elim'
+        fs = rest + el.congruence() + int_h + [gq]
+        s = z3.Solver()
+        for f in fs: s.add(f)
+        r, _ = _check(s, min(left, 3.0) * 1000)
+        if r == 'unsat': return 'unsat', rnd
+        subs = None
+        if r == 'sat':
+            m = s.model()
+        else:
+            left = budget - (time.time() - t0)
+            r, mm = lazy_combination([z3.simplify(f) for f in fs], max(1.0, min(left, 10.0)), want_models=True)
+            if r == 'unsat': return 'unsat', rnd
+            if r != 'sat': return 'unknown', rnd
+            mr, mi = mm
+            subs = []
+            for mdl in (mr, mi):
+                for d in mdl.decls():
+                    if d.arity() == 0 and not d.name().startswith('ia!') and not d.name().startswith('tr!'):
+                        subs.append((d(), mdl[d]))
+            m = None
+        viol = []
+        for c in cands:
+            if c.get_id() in act_ids: continue
+            cc = el.rw(c)
+            if not el.ok: return 'unknown', 'elim'
+            if m is not None:
+                try:
+                    v = m.eval(cc, model_completion=True)
+                except z3.Z3Exception:
+                    continue
+                bad = z3.is_false(v)
+            else:
+                v = z3.simplify(z3.substitute(cc, *subs)) if subs else cc
+                bad = not z3.is_true(v)
+            if bad:
+                viol.append(c)
+                if len(viol) >= 6: break
+        # congruence between new and old reads is only enforced after re-solving, so a round without
+        # falsified instances needs one confirmation round with all candidates' reads registered
+        if not viol:
+            return 'sat', (model_summary(m) if m is not None else dict((str(a), str(b)) for a, b in subs[:60]))
+        for c in viol:
+            active.append(c); act_ids.add(c.get_id())
+    return 'unknown', 30
+
+
 def model_summary(m, limit=60):
     out = {}
     try:
@@ -635,6 +746,15 @@ def discharge(hyps, goal, budget=20.0, skolems=(), want_model=True):
             core = [f for f in (z3.simplify(f) for f in kept + [gq]) if not z3.is_true(f)]
             ints = [f for f in (z3.simplify(f) for f in int_h) if not z3.is_true(f)]
             verdict_b1 = None
+            # B0: nonlinear terms abstracted to uninterpreted functions, linear + congruence reasoning only
+            na = NLAbs()
+            afs = [na.ab(f) for f in kept + [gq] + int_h]
+            if na.ok:
+                s = z3.Solver()
+                for f in afs: s.add(f)
+                r, dt = _check(s, 3000)
+                log.append(('B0:abstract-linear', r, round(dt, 3)))
+                if r == 'unsat': return done('proved', 'z3-smt-abstract')
             for attempt in (0, 1):
                 if attempt == 1:
                     core = decide_int_atoms(core, int_h)
@@ -654,6 +774,14 @@ def discharge(hyps, goal, budget=20.0, skolems=(), want_model=True):
                 if r == 'sat' and not has_int and last:
                     return done('failed', 'z3-nlsat', model_summary(s.model()) if want_model else None)
                 if not has_int: break
+            # B2 (short): the default solver often decides mixed queries at once
+            s = z3.Solver()
+            for f in fs: s.add(f)
+            r, dt = _check(s, 2500)
+            log.append(('B2s:z3-smt-qf', r, round(dt, 3)))
+            if r == 'unsat': return done('proved', 'z3-smt-qf')
+            if r == 'sat' and last:
+                return done('failed', 'z3-smt-qf', model_summary(s.model()) if want_model else None)
             # B1b: exact combination (nlsat for the reals, LIA for the index atoms)
             if verdict_b1 != 'unsat':
                 r, its = lazy_combination(fs, budget if last else budget / 2)
@@ -670,6 +798,12 @@ def discharge(hyps, goal, budget=20.0, skolems=(), want_model=True):
                 return done('failed', 'z3-smt-qf', model_summary(s.model()) if want_model else None)
         else:
             log.append(('B:elim', 'not-applicable', 0))
+        if level == 0 and quants:
+            # Tier R: counterexample-guided instantiation (finds genuine counterexamples of the instantiated query)
+            r, info = refine_loop(plain, quants, goal, skolems, min(budget, 20.0))
+            log.append(('R:cegqi', r, info if not isinstance(info, dict) else 'model'))
+            if r == 'unsat': return done('proved', 'z3-smt-cegqi')
+            if r == 'sat': return done('failed', 'z3-smt-cegqi', info if want_model else None)
     # Tier C: everything to the default solver with instances added
     s = z3.Solver()
     for h in plain: s.add(h)
